@@ -150,15 +150,26 @@ func (r *Run) LibIssue(s *MsgSpec, sp Spelling, typedAlg bool, ent *Entropy, wra
 		return inner
 	}
 	var err error
+	// message objects taken from a pool: the signature slots are zero-length
+	// slices with some capacity left from an earlier use (legal - only a slot
+	// that HOLDS signature bytes is refused)
+	recycled := func() []byte {
+		if r.RecycledSigCap > 0 {
+			return make([]byte, 0, r.RecycledSigCap)
+		}
+		return nil
+	}
 	if s.Kind == refcose.KSignTagged {
 		is.MS = s.LibSign(sp, typedAlg)
 		signers := make([]cose.Signer, len(s.Signers))
 		for i, sg := range s.Signers {
 			signers[i] = mk(i, sg.Key)
+			is.MS.Signatures[i].Signature = recycled()
 		}
 		r.Lib(func() { err = is.MS.Sign(ent, s.External, signers...) })
 	} else {
 		is.M1 = s.LibSign1(sp, typedAlg)
+		is.M1.Signature = recycled()
 		signer := mk(0, s.Key)
 		r.Lib(func() { err = is.M1.Sign(ent, s.External, signer) })
 	}
